@@ -77,12 +77,15 @@ func mwScenario(L int, lateB bool, c int) *explore.Scenario {
 		}
 		subs := map[string]*hx.ScriptSub{}
 		hs := map[string]*message.Handler{}
+		// handler names: the router accepts any distinct strings, the empty one included (router-level
+		// middlewares are stored with an empty handler name)
+		naming := vs.Choose(len(namings), 0, "handler names")
 		addHandler := func(h string) {
 			sub := hx.NewScriptSub(h, map[string][]*message.Message{"in" + h: {hx.Msg("msg" + h)}})
 			subs[h] = sub
 			tr := ""
 			traces["msg"+h] = &tr
-			hs[h] = r.AddHandler("h"+h, "in"+h, sub, "out", hx.NewScriptPub("p"+h), func(m *message.Message) ([]*message.Message, error) {
+			hs[h] = r.AddHandler(namings[naming][h], "in"+h, sub, "out", hx.NewScriptPub("p"+h), func(m *message.Message) ([]*message.Message, error) {
 				*traces[m.UUID] += "H" + h
 				return nil, nil
 			})
@@ -157,11 +160,18 @@ func mwScenario(L int, lateB bool, c int) *explore.Scenario {
 		for h := range hs {
 			got := *traces["msg"+h]
 			if want := expected(regs, h); got != want {
-				vs.Fail("nesting", "program [%s]: handler %s ran %q, expected %q", strings.TrimSpace(prog), h, got, want)
+				vs.Fail("nesting", "program [%s] with handler names %q: handler %s ran %q, expected %q", strings.TrimSpace(prog), namings[naming], h, got, want)
 			}
 		}
-		vs.Note("%s", prog)
+		vs.Note("%s names=%d", prog, naming)
 	}}
+}
+
+var namings = []map[string]string{
+	{"A": "hA", "B": "hB"},
+	{"A": "", "B": "hB"},
+	{"A": "hA", "B": ""},
+	{"A": "h", "B": "hh"},
 }
 
 // decorator lists: np publisher decorators and ns subscriber decorators, added in 1..k batches.
